@@ -33,7 +33,14 @@ type World struct {
 	opTimeo   time.Duration
 }
 
+// reseed makes the package's own use of the global math/rand source (the random descent of
+// EvictSomeItems, RandBm, Set's priorities) a function of the history alone, so that a history —
+// in particular a fault history, whose file-call positions depend on those choices — replays
+// exactly.  (go.mod says go 1.21: rand.Seed is effective.)
+func reseed() { rand.Seed(20260923) }
+
 func newWorld() *World {
+	reseed()
 	return &World{files: map[int]*memfile.File{}, stores: map[int]*gkvlite.Store{}, sfile: map[int]int{}, ro: map[int]bool{}, rmark: map[int]int{},
 		opTimeo: 10 * time.Second}
 }
@@ -353,6 +360,7 @@ func (w *World) exec(t []string) string {
 	w.setTag(t[0])
 	switch t[0] {
 	case "reset":
+		reseed()
 		*w = *newWorld()
 		rand.Seed(20260923) // EvictSomeItems / RandBm draw from the global source: keep runs repeatable
 		return "ok"
